@@ -39,6 +39,7 @@ typedef struct { void *key; int owner; uint32_t vc[SCHED_MAXTASK]; int used; } m
 static task_t tasks[SCHED_MAXTASK];
 static team_t teams[SCHED_MAXTASK];
 static mutex_t mutexes[16];
+
 static int cur;
 static int enabled;
 static sched_cfg_t cfg;
@@ -68,6 +69,11 @@ static void fatal(const char *why) {
 
 /* ================= access monitor ================= */
 typedef struct { uint32_t w, wpc, r[4], rpc[4]; } cell_t;
+/* epoch = (task slot + 1) in the top 10 bits, that task's clock (low 22 bits) below */
+#define EP_SHIFT 22
+#define EP_CLK(e) ((e) & ((1u << EP_SHIFT) - 1))
+#define EP_TID(e) ((int)((e) >> EP_SHIFT) - 1)
+#define EP_MAKE(t, c) (((uint32_t)((t) + 1) << EP_SHIFT) | ((c) & ((1u << EP_SHIFT) - 1)))
 #define PAGE_SHIFT 12
 #define CELLS_PER_PAGE (1 << (PAGE_SHIFT - 2))
 typedef struct { uintptr_t key; cell_t *cells; } pent_t;
@@ -120,24 +126,24 @@ static void report_race(uintptr_t addr, int write, uintptr_t pc, uint32_t prev_e
     if (sched_races[i].cur_pc == pc && sched_races[i].prev_pc == prev_pc) return;
   if (sched_nraces >= SCHED_MAXRACES) return;
   race_t *r = &sched_races[sched_nraces++];
-  r->addr = addr; r->cur_task = cur; r->prev_task = (int)(prev_epoch >> 24) - 1; r->cur_write = write; r->prev_write = prev_write;
+  r->addr = addr; r->cur_task = cur; r->prev_task = EP_TID(prev_epoch); r->cur_write = write; r->prev_write = prev_write;
   r->cur_pc = pc; r->prev_pc = prev_pc;
 }
 static inline void mon_granule(uintptr_t a, int write, uintptr_t pc) {
   cell_t *pg = page_lookup(a >> PAGE_SHIFT, 1);
   cell_t *c = &pg[(a & ((1 << PAGE_SHIFT) - 1)) >> 2];
   task_t *t = &tasks[cur];
-  uint32_t me = ((uint32_t)(cur + 1) << 24) | (t->vc[cur] & 0xFFFFFF);
+  uint32_t me = EP_MAKE(cur, t->vc[cur]);
   uint32_t w = c->w;
-  if (w && (int)(w >> 24) - 1 != cur && (w & 0xFFFFFF) > t->vc[(w >> 24) - 1]) report_race(a, write, pc, w, c->wpc, 1);
+  if (w && EP_TID(w) != cur && EP_CLK(w) > t->vc[EP_TID(w)]) report_race(a, write, pc, w, c->wpc, 1);
   if (!write) {
     int slot = -1, empty = -1, stale = -1;
     for (int i = 0; i < 4; i++) {
       uint32_t r = c->r[i];
       if (!r) { if (empty < 0) empty = i; continue; }
-      int rt = (int)(r >> 24) - 1;
+      int rt = EP_TID(r);
       if (rt == cur) { slot = i; break; }
-      if ((r & 0xFFFFFF) <= t->vc[rt]) stale = i;
+      if (EP_CLK(r) <= t->vc[rt]) stale = i;
       else sched_stats.shared_granules += (c->w == 0); /* concurrently read granule (read-only sharing) */
     }
     if (slot < 0) slot = empty >= 0 ? empty : stale;
@@ -146,8 +152,8 @@ static inline void mon_granule(uintptr_t a, int write, uintptr_t pc) {
     for (int i = 0; i < 4; i++) {
       uint32_t r = c->r[i];
       if (!r) continue;
-      int rt = (int)(r >> 24) - 1;
-      if (rt != cur && (r & 0xFFFFFF) > t->vc[rt]) report_race(a, 1, pc, r, c->rpc[i], 0);
+      int rt = EP_TID(r);
+      if (rt != cur && EP_CLK(r) > t->vc[rt]) report_race(a, 1, pc, r, c->rpc[i], 0);
       c->r[i] = 0;
     }
     c->w = me; c->wpc = (uint32_t)pc;
@@ -172,7 +178,7 @@ static void switch_to(int t, int cls) {
   if (t == cur) return;
   int prev = cur;
   sched_stats.switches++;
-  int code = cls * 64 + t;
+  int code = cls * 1024 + t;
   sched_stats.interleaving_hash = fnv1a(&code, sizeof code, sched_stats.interleaving_hash ? sched_stats.interleaving_hash : FNV0);
   cur = t;
   swapcontext(&tasks[prev].ctx, &tasks[t].ctx);
